@@ -50,14 +50,20 @@ ValueFaults(i) ==
          \cup (IF sh \in {"numlist2", "numlist3", "numlist4", "numlist6"} /\ Cardinality(shapes) = 1 THEN {"wrong-arity", "elem-wrong-type"} ELSE {})
          \cup (IF sh = "str" /\ shapes = {"str"} THEN {"wrong-type"} ELSE {})
          \cup (IF sh = "bool" /\ shapes = {"bool"} THEN {"wrong-type"} ELSE {})
+         \* an integral float (400.0) where the schema wants an integer: draft 4 "integer" does not accept it
+         \cup (IF sh = "int" /\ shapes = {"int"} THEN {"int-as-float"} ELSE {})
 
 ObjectFaults(i) ==     \* i = 0: the root block; otherwise an "open" item
     LET t == IF i = 0 THEN RootType ELSE Act(i).type IN
     IF i > 0 /\ Act(i).a # "open" THEN {}
     ELSE {"unknown-keyword"} \cup (IF \E r \in Required : r[1] = t THEN {"missing-required"} ELSE {})
+         \* an item of an object collection (LAYERS, CLASSES...) replaced by something that is not an object;
+         \* only as the sole fault of a behaviour (items inside the replaced block are gone)
+         \cup (IF i > 0 /\ t \notin Singletons /\ faults = <<>> THEN {"objlist-item-not-object"} ELSE {})
 
 NameOf(i, kind) ==
-    IF kind \in {"unknown-keyword", "missing-required"} THEN (IF i = 0 THEN RootType ELSE Act(i).type)
+    IF kind = "objlist-item-not-object" THEN Plural(Act(i).type)
+    ELSE IF kind \in {"unknown-keyword", "missing-required"} THEN (IF i = 0 THEN RootType ELSE Act(i).type)
     ELSE IF Act(i).a \in {"pattern", "points"} THEN Act(i).a
     ELSE IF Act(i).a = "repeated" THEN Act(i).key
     ELSE Act(i).key
@@ -68,6 +74,7 @@ Inject ==
          LET ks == IF i = 0 THEN ObjectFaults(0) ELSE ValueFaults(i) \cup ObjectFaults(i) IN
          /\ ks # {}
          /\ \A j \in 1..Len(faults) : faults[j].item # i            \* one fault per item
+         /\ \A j \in 1..Len(faults) : faults[j].kind # "objlist-item-not-object"
          /\ \E kind \in Pick(ks) :
               faults' = Append(faults, [item |-> i, kind |-> kind, name |-> NameOf(i, kind)])
     /\ UNCHANGED <<stack, hist, done, target, variant, sealed>>
